@@ -86,6 +86,16 @@ def run_download(params: dict, chooser=None) -> dict:
                             init_len = pc.end.conn.bytes_sent[0] - 4
                             pc.end.conn.cut_after[1] = (init_len + cut[0], cut[1])
             tw.world.boundary_hooks.append(watch)
+            if params.get('reoffer'):
+                # the uploader (its user, or its own retry logic) offers the file again once the download has failed
+                reoffered = []
+
+                def reoffer():
+                    trs = tw.client.transfers.get_downloads()
+                    if trs and trs[0].state.VALUE == TransferState.State.FAILED and not reoffered:
+                        reoffered.append(1)
+                        bob.offer(REMOTE)
+                tw.world.boundary_hooks.append(reoffer)
             _orig_open = bob._open_file_connection
 
             def open_and_arm(ticket):
@@ -130,6 +140,11 @@ def run_download(params: dict, chooser=None) -> dict:
                 if dis in ('short', 'claims-more'):
                     add('complete-on-short-data', f"{params}: sender delivered fewer bytes than announced",
                         f'C04:complete-on-short-data:{dis}')
+            if params.get('reoffer') and state == TransferState.State.COMPLETE and local is not None:
+                others = [f for f in os.listdir(os.path.dirname(local)) if os.path.join(os.path.dirname(local), f) != local]
+                if others:
+                    add('orphaned-partial-file', f"{params}: finished as {os.path.basename(local)!r}, the download "
+                        f"directory also holds {others}", 'C04:orphaned-partial-file')
             if cut is not None:
                 first = attempts[0] if attempts else None
                 for a in attempts[1:]:
@@ -201,6 +216,16 @@ def run_upload(params: dict, chooser=None) -> dict:
             bob.offset_to_send = lambda path: offset
             bob.close_after = params.get('close_after')
             bob.split_handshake = params.get('split')
+            ra = params.get('reset_after')
+            if ra is not None:
+                # the downloader's connection is reset (not closed) after k bytes; k = size: after the last byte, in
+                # the window in which the uploader waits for the close
+                def got(pc, info, data, ra=ra):
+                    info['data'] += data
+                    if len(info['data']) >= ra and not info.get('reset_done'):
+                        info['reset_done'] = True
+                        pc.reset()
+                bob._got_file_bytes = got
             tw.start(scan=True)
             rp = tw.remote_path_of('music/song.mp3')
             pc = bob.ensure_p_conn()
@@ -220,7 +245,7 @@ def run_upload(params: dict, chooser=None) -> dict:
             got = bytes(infos[-1]['data']) if infos else b''
             if state == TransferState.State.COMPLETE:
                 want = src[offset:] if offset <= size else b''
-                if params.get('close_after') is not None:
+                if params.get('close_after') is not None or params.get('reset_after') is not None:
                     pass     # the downloader hung up early: what it kept says nothing about what was sent
                 elif got != want:
                     add('upload-complete-but-short', f"{params}: upload COMPLETE but the peer received {len(got)} bytes "
@@ -229,6 +254,10 @@ def run_upload(params: dict, chooser=None) -> dict:
                 if infos and not infos[-1]['conn'].closed:
                     add('upload-complete-before-close', f"{params}: COMPLETE while the peer has not closed",
                         'C04:upload-complete-before-close')
+            elif params.get('reset_after') is not None:
+                if state in (TransferState.State.UPLOADING, TransferState.State.INITIALIZING) and not stuck:
+                    add('upload-stuck', f"{params}: the downloader's connection was reset, {tw.world.now():.0f} s later the "
+                        f"upload is still {state.name}", f'C04:upload-stuck:{state.name}')
             elif params.get('close_after') is None and offset <= size and not stuck:
                 add('honest-upload-not-complete', f"{params}: {state.name}({up.fail_reason}) peer got {len(got)} bytes",
                     f'C04:honest-upload-not-complete:{state.name}')
@@ -256,6 +285,10 @@ def download_cases(tier):
             for split in (1, 3):
                 out.append({'kind': 'download', 'size': size, 'split': split})
                 out.append({'kind': 'download', 'size': size, 'split': split, 'cut': [4 + size // 2, 'reset']})
+        if size in (129, 8193):
+            # the download failed on a clean EOF; later the uploader offers the file again: resume, same path
+            for k in (4 + 1, 4 + size // 2, 4 + size - 1):
+                out.append({'kind': 'download', 'size': size, 'cut': [k, 'eof'], 'reoffer': True})
         if size == 20000:
             # the report about the broken first attempt arrives while the second attempt is receiving
             for kind in ('eof', 'reset'):
@@ -287,6 +320,9 @@ def upload_cases(tier):
             for split in (1, 3, 5):
                 out.append({'kind': 'upload', 'size': size, 'split': split})
                 out.append({'kind': 'upload', 'size': size, 'split': split, 'offset': size // 2})
+        if size >= 1:
+            for ra in sorted({1, size // 2, size - 1, size} - {0}):
+                out.append({'kind': 'upload', 'size': size, 'reset_after': ra})
         if size >= 128:
             for ca in sorted({1, 127, size // 2, size - 1}):
                 out.append({'kind': 'upload', 'size': size, 'close_after': ca})
